@@ -10,6 +10,7 @@ the call raised SystemExit or KeyboardInterrupt).  A second target does the
 same around ``utils.import_module_from_path``.
 """
 import asyncio
+import io
 import os
 import sys
 import warnings
@@ -238,6 +239,18 @@ def check_case(case, ctx):
             raised = e
         problems = compare(before, 'run')
         restore(before)
+        if not problems and case.get('rerun'):
+            # the same object once more, in a process whose sys.stdout is another stream by now (a capture fixture, an
+            # application that swapped it): what counts is the stream found when this run starts
+            sys.stdout = io.StringIO()
+            before2 = snapshot()
+            try:
+                ex.run(on_error=case.get('on_error', 'return'), verbose=case.get('verbose', 0))
+            except BaseException as e:   # noqa
+                pass
+            problems = [('rerun_' + k, 'second run of the same object: ' + m) for k, m in compare(before2, 'rerun')]
+            restore(before2)
+            restore(before)
         if empty_entry:
             sys.path.pop(0)
         sandbox.purge_modules([name])
@@ -245,6 +258,8 @@ def check_case(case, ctx):
         ctx.count()
         ctx.tag('outcome:' + oc, 'on_error:' + case.get('on_error', 'return'), 'mode:' + case.get('mode', 'native'))
         ctx.tag('raised:' + (type(raised).__name__ if raised is not None else 'none'))
+        if case.get('rerun'):
+            ctx.tag('rerun_under_another_stdout')
         for f in case.get('features', []):
             ctx.tag('feature:' + f)
         if oc != 'pass' and case.get('features'):
@@ -368,7 +383,7 @@ def case_strategy(D):
     return {'outcome': oc, 'position': D.choice(['last', 'first', 'middle']), 'fillers': D.int(0, 3),
             'features': feats, 'split': D.bool(), 'on_error': D.choice(['return', 'raise']),
             'mode': D.choice(['native', 'pytest']), 'verbose': D.choice([0, 1, 2, 3]), 'from_module': D.chance(1, 4),
-            'path_has_empty_entry': D.chance(1, 3)}
+            'path_has_empty_entry': D.chance(1, 3), 'rerun': D.chance(1, 3)}
 
 
 @composite
@@ -398,7 +413,7 @@ def product(ctx, shard, nshards):
                                 continue
                             case = {'outcome': oc, 'position': 'last', 'fillers': 1, 'features': [f] if f else [], 'split': split,
                                     'on_error': on_error, 'mode': mode, 'verbose': verbose, 'from_module': False,
-                                    'path_has_empty_entry': bool(n % 2)}
+                                    'path_has_empty_entry': bool(n % 2), 'rerun': n % 3 == 0}
                             ctx.guard(check_case, case)
     if shard == 0:
         ctx.exhaustive.append('outcome (11) x single feature (11) x on_error (2) x mode (2) x verbosity {0,2} x split (2)')
